@@ -14,7 +14,7 @@
      fx_hidden_stays D25  a ./ block for a file that is not in the listing is
                           dropped when the file was hidden by its .cap file or
                           when the block itself is a hide block
-     fx_skip_unreadable D26 prep_entries also skips a child whose handler fails
+     fx_skip_unreadable D27 prep_entries also skips a child whose handler fails
                           with OSError while it builds the entry (HTML title of
                           an unreadable file, *.gophermap gone since the stat) *)
 From Coq Require Import ZArith String.
